@@ -33,13 +33,14 @@ def handle (op : String) (args : List String) : Option String :=
   | "c04.header" => do
       let bs ← run pBytes args
       pure (resStr (fun (p : Header × Bytes) => headerStr p.1 ++ s!" rest {p.2.length}") (parseHeader bs))
-  | "c04.holds.roundtrip" | "c04.holds.pointcloud_index_buffer_witness" => do
+  | "c04.holds.roundtrip" | "c04.holds.pointcloud_index_buffer_witness" | "c04.holds.w_name_before_group_witness"
+  | "c04.holds.w_name_captured_by_group_witness" | "c04.holds.ascii_out_of_range_witness" => do
       let (cfg, m, back) ← run (do let c ← pCfg; let m ← pMesh; let b ← pOkMesh; pure (c, m, b)) args
       pure (boolStr (RoundTrips codingF cfg m back))
   | "c04.holds.header_describes" => do
       let (bs, nv, nf, tri) ← run (do let b ← pBytes; let nv ← pNat; let nf ← pNat; let t ← pNat; pure (b, nv, nf, t)) args
       pure (boolStr (HeaderDescribes bs nv nf (tri = 1)))
-  | "c04.holds.encodings_agree" | "c04.holds.uchar_scalar_ascii_agrees" => do
+  | "c04.holds.encodings_agree" | "c04.holds.uchar_scalar_ascii_agrees" | "c04.holds.ascii_float32_tie_witness" => do
       let (a, b, c) ← run (do let a ← pOkMesh; let b ← pOkMesh; let c ← pOkMesh; pure (a, b, c)) args
       pure (boolStr (meshEq a b && meshEq b c))
   | "c04.holds.bad_name_write_rejected" =>
